@@ -31,7 +31,7 @@ def scenario(rng, nthreads):
                 cur[k] = v
             sub.append("T %d: %s %d %d" % (h, op, k, v))
         sub.append("T %d: write %d" % (h, newval()))
-        sub.append("T %d: exit %d" % (h, rng.choice([0, 1, 7, -5, 255, 2147483647])) if rng.random() < 0.6 else "T %d: ret" % h)
+        sub.append("T %d: exit %d" % (h, rng.choice([0, 1, 7, -5, 255, 2147483647, -1, -1, -2, -2147483647])) if rng.random() < 0.6 else "T %d: ret" % h)
         lines += sub
         pat = rng.choice(["unref-first", "join-racing", "finished-before-join", "extra-ref", "late-unref"]) if j else \
             rng.choice(["unref-first", "finished-before-unref", "extra-ref-detached", "join-detached"])
